@@ -599,6 +599,27 @@ def jobs_for(pid, tier):
     return table.get(pid)
 
 
+def apalache_inductive():
+    """C05 / C03 at the design level beyond TLC's capacities: Apalache shows that the representation
+    invariant (len <= Cap, keys pairwise different) is INDUCTIVE for the slot-level steps of the crate
+    (find-or-append, swap-remove at any index, pop from the back, clear) for every capacity up to 32."""
+    d = os.path.join(WORK, "apalache")
+    shutil.rmtree(d, ignore_errors=True)
+    os.makedirs(d)
+    shutil.copy(os.path.join(SPEC, "MapInd.tla"), d)
+    info = {"module": "spec/MapInd.tla", "capacities": "0..32 (sequences generated with Gen(32))", "runs": []}
+    for args in (["--init=Init", "--length=0"], ["--init=IndInit", "--length=1"]):
+        cmd = ["timeout", "900", "apalache-mc", "check", "--cinit=ConstInit", "--inv=Inv"] + args + ["MapInd.tla"]
+        t0 = time.time()
+        p = sh(cmd, cwd=d, timeout=1000, check=False)
+        ok = "The outcome is: NoError" in p.stdout
+        info["runs"].append({"cmd": " ".join(cmd[2:]), "outcome": "NoError" if ok else "ERROR", "wall_s": round(time.time() - t0, 1)})
+        if not ok:
+            raise ToolError("Apalache does not confirm the inductive invariant (%s):\n%s" % (" ".join(args), p.stdout[-1500:]))
+    shutil.rmtree(d, ignore_errors=True)
+    return info
+
+
 def nostd_probe():
     """C06, compile-time clause: the crate builds without the standard library.
     Build the library alone with default features (where #![no_std] must be in effect)
@@ -654,6 +675,8 @@ def run_check(pid, tier, seed):
         info, fl = nostd_probe()
         summary["nostd_probe"] = info
         failures.extend(fl)
+    if pid in ("C05", "C03"):
+        summary["apalache_inductive_invariant"] = apalache_inductive()
     gate = GATES.get(pid, {pid, "CRASH"}) | {"SPEC"}
     # (a rejected trace event is attributed exactly; the widened gates apply to replayed transitions only;
     #  but a rejection that no check running this very trace job would report is never dropped silently)
@@ -697,6 +720,7 @@ def write_evidence(pid, tier, seed, summary, nviol, wall, others):
             "spec_drift_steps": summary["drift"], "tlc_runs": summary["tlc"], "replays": summary["replays"],
             "op_counts": summary["op_counts"], "other_property_failures_seen": others,
             "nostd_probe": summary.get("nostd_probe"), "sweep": summary.get("sweep"), "element_shapes_edges": summary.get("element_shapes"),
+            "apalache_inductive_invariant": summary.get("apalache_inductive_invariant"),
             "explanation": "TLC exhaustively explored the stated constants checking the invariants in every state and "
                            "emitted every (state, operation) transition; each emitted transition was replayed against the real crate "
                            "from a canonical construction and along random walks, in debug and release builds.",
@@ -722,6 +746,12 @@ def main():
             os.makedirs(WORK, exist_ok=True)
             build_all(["debug", "release", "asan"])
             for f in sorted(os.listdir(SPEC)):
+                if f == "MapInd.tla":      # typed for Apalache (EXTENDS Apalache): checked by its own type checker
+                    p = sh(["timeout", "300", "apalache-mc", "typecheck", f], cwd=SPEC, timeout=400, check=False)
+                    shutil.rmtree(os.path.join(SPEC, "_apalache-out"), ignore_errors=True)
+                    if "Type checker [OK]" not in p.stdout and "EXITCODE: OK" not in p.stdout:
+                        raise ToolError("Apalache rejects %s:\n%s" % (f, p.stdout[-2000:]))
+                    continue
                 if f.endswith(".tla"):
                     p = sh(["tla-sany", f], cwd=SPEC, timeout=120, check=False)
                     if "Semantic errors" in p.stdout or "Fatal" in p.stdout or "Could not parse" in p.stdout or p.returncode != 0:
